@@ -109,9 +109,11 @@ func (k Keeper) IterateConsensusStates(
 	for ; iterator.Valid(); iterator.Next() {
 		key := iterator.Key()
 
-		keySplit := strings.Split(string(key), "/")
-		// consensus key is in the format "clients/<chainName>/consensusStates/<height>"
-		if len(keySplit) != 4 || keySplit[2] != string(host.KeyConsensusStatePrefix) {
+		// consensus key is in the format "clients/<chainName>/consensusStates/<height>", where
+		// <height> is 16 raw big-endian bytes that may themselves contain the separator:
+		// split off the first three parts only and take the rest as the height
+		keySplit := strings.SplitN(string(key), "/", 4)
+		if len(keySplit) != 4 || keySplit[2] != string(host.KeyConsensusStatePrefix) || len(keySplit[3]) != 16 {
 			continue
 		}
 		chainName := keySplit[1]
